@@ -142,6 +142,26 @@ pub fn gen_c17(out: &mut Out, rng: &mut Rng, thorough: bool) {
             }
         }
     }
+    // the asynchronous client over a real socket: `client::tcp::connect` / `connect_slave`
+    // (the reference the blocking client is compared with must itself be what `attach` is)
+    for explicit in [false, true] {
+        let s0 = rng.u8();
+        let (tok, unit) = if explicit { (hex8(s0), s0) } else { ("-".to_string(), 255) };
+        let s1 = rng.u8();
+        let pdu = [0x03u8, 0x02, 0x12, 0x34];
+        let ops = typed_boundary_ops(rng);
+        let (top, tpdu) = &ops[rng.below(ops.len())];
+        monitor_line(
+            out,
+            &format!(
+                "sync tcp {tok} async | call RHR:0001:0001 r=d{} | slave {} | typed {} r=d{}",
+                hex_raw(&frame("tcp", 0, unit, &pdu)),
+                hex8(s1),
+                top.tok(),
+                hex_raw(&frame("tcp", 1, s1, tpdu))
+            ),
+        );
+    }
     let n = if thorough { 2000 } else { 100 };
     for i in 0..n {
         let kind = if i % 4 == 3 { "rtu" } else { "tcp" };
